@@ -58,7 +58,7 @@ mutual
         subst e'
         have : n = h := by simpa using hn
         subst this
-        refine ⟨_, find?_self (.node n v ks), ?_⟩
+        refine ⟨_, fs_find?_self (.node n v ks), ?_⟩
         rw [handles_node, hh]; exact List.mem_cons_self
       · rw [if_neg hh] at e
         cases hl : ancestorsOfList r ks with
@@ -82,7 +82,7 @@ mutual
           | inr hnh =>
             have : n = h := by simpa using hnh
             subst this
-            refine ⟨_, find?_self (.node n v ks), ?_⟩
+            refine ⟨_, fs_find?_self (.node n v ks), ?_⟩
             rw [handles_node]; exact List.mem_cons_of_mem _ hr_in
   theorem ancestorsOfList_sound {r n : Nat} : ∀ (ks : List HTree) (path : List Nat), (handlesList ks).Nodup →
       ancestorsOfList r ks = some path → n ∈ path → ∃ u, findList? n ks = some u ∧ r ∈ handles u
